@@ -9,55 +9,23 @@ COQ_PROJECTS = vc.COQ_PROJECTS
 TRUSTED = vcheck.STD_TRUSTED + vc.TRUSTED_VALUES
 
 
-def parse_pre(out, marker):
-    """parse 'marker = [Some [[1; 2]; [3]]; None; ...]' from coqc output"""
-    s = vcheck.norm(out)
-    m = re.search(re.escape(marker) + r"\s*=\s*", s)
-    if not m:
-        raise vcheck.Broken("could not find %s in Coq output" % marker, out[-2000:])
-    toks = re.findall(r"Some|None|\[|\]|;|\d+|:", s[m.end():])
-    pos = 0
-
-    def item():
-        nonlocal pos
-        t = toks[pos]
-        if t == "None":
-            pos += 1
-            return None
-        if t == "Some":
-            pos += 1
-            return item()
-        if t == "[":
-            pos += 1
-            xs = []
-            while toks[pos] != "]":
-                if toks[pos] == ";":
-                    pos += 1
-                    continue
-                xs.append(item())
-            pos += 1
-            return xs
-        pos += 1
-        return int(t)
-    return item()
-
-
-HEADER = vc.HEADER + "Open Scope N_scope.\n"
+HEADER = vc.HEADER + "From Coq Require Import String.\nOpen Scope string_scope.\n"
 
 
 def model_preimages(ctx, name, vals, shard=1500):
-    """vals: list of (kind, json value); returns list of None | list of byte strings"""
+    """vals: list of (kind, json value); returns list of None (model: UUID() panics) | list of byte strings"""
     res = []
     for k in range(0, len(vals), shard):
         part = vals[k:k + shard]
         v = HEADER + "Definition vals : list value := [\n" + ";\n".join(vc.c_value(kd, j) for kd, j in part) + "].\n"
-        v += "Definition P := Eval vm_compute in map preimage vals.\nPrint P.\n"
+        v += "Definition P := Eval vm_compute in preimages_text vals.\nPrint P.\n"
         out = vcheck.coq_eval(ctx.work, "%s_%d" % (name, k), v)
-        ps = parse_pre(out, "P")
-        if len(ps) != len(part):
-            raise vcheck.Broken("pre-image list has the wrong length", out[-1000:])
-        for p in ps:
-            res.append(None if p is None else [bytes(c) for c in p])
+        lines = [l.strip() for l in re.findall(r'"(:[^"]*)"', out)]
+        if len(lines) != len(part):
+            raise vcheck.Broken("pre-image list has the wrong length (%d for %d values)" % (len(lines), len(part)), out[-1000:])
+        for l in lines:
+            assert l[0] == ":"
+            res.append(None if l[1:] == "!" else [bytes.fromhex(c) for c in l[1:].split(",")])
     return res
 
 
@@ -201,7 +169,7 @@ def run(ctx):
     ctx.add_obligations(info)
     ctx.cov["checker_cmd"] = "coqc -Q coq/Values BWValues coq/Values/Props/C06.v ; work/bin/h_values -mode uuid ; pre-images computed by coqc (vm_compute), hashed by h_values -mode hash"
     thorough = ctx.tier == "thorough"
-    rows = vc.hrows(["-mode", "uuid", "-seed", str(ctx.seed), "-n", "40000" if thorough else "2000"])
+    rows = vc.hrows(["-mode", "uuid", "-seed", str(ctx.seed), "-n", "40000" if thorough else "1500"])
     vals, owner = [], []
     for i, r in enumerate(rows):
         if r["kind"] == "uuid":
